@@ -41,6 +41,11 @@ var c11d11bFuncs = []c11d11bFn{
 	{"not", "NotFunc", stdlib.NotFunc},
 	{"and", "AndFunc", stdlib.AndFunc},
 	{"or", "OrFunc", stdlib.OrFunc},
+	{"add", "AddFunc", stdlib.AddFunc},
+	{"sub", "SubtractFunc", stdlib.SubtractFunc},
+	{"mul", "MultiplyFunc", stdlib.MultiplyFunc},
+	{"div", "DivideFunc", stdlib.DivideFunc},
+	{"mod", "ModuloFunc", stdlib.ModuloFunc},
 }
 
 func c11D11bInvoke(f function.Function, args []cty.Value) c13Res {
@@ -102,6 +107,17 @@ func c11D11bCorrespondence(ctx *Ctx) {
 				}
 				args[j] = special(args[j].Type())
 				c11D11bCase(ctx, e, args)
+			}
+		}
+		// two number parameters: every pair of the special numbers (the big.ErrNaN corners Inf-Inf, 0*Inf, 0/0, Inf/Inf, x%0, Inf%x)
+		if len(ps) == 2 && vp == nil && ps[0].Type == cty.Number && ps[1].Type == cty.Number {
+			sp := []cty.Value{cty.PositiveInfinity, cty.NegativeInfinity, cty.Zero, cty.NumberFloatVal(-0.0), cty.NumberIntVal(1), cty.NumberIntVal(-7),
+				cty.NumberFloatVal(0.5), cty.MustParseNumberVal("1e40"), cty.MustParseNumberVal("-3.25"), cty.MustParseNumberVal("1e-40")}
+			for _, a := range sp {
+				for _, b := range sp {
+					c11D11bCase(ctx, e, []cty.Value{a, b})
+					ctx.Tag("d11b:special-number-pair")
+				}
 			}
 		}
 		for k := 0; k < per; k++ {
